@@ -568,7 +568,13 @@ func TestInner(t *testing.T) {
 		probe := func(sev string) string { p++; return fmt.Sprintf("probe p%d-%d %s", id, p, sev) }
 		lines := []string{"steps", "start " + cfg(), probe("-"), probe("x"), fmt.Sprintf("astatus s%d-0", id)}
 		for _, f := range faults {
-			lines = append(lines, fmt.Sprintf("reload %s %s %s", cfg(), f, hx.Pick(r, vias)), "status", probe(hx.Pick(r, []string{"-", "x"})))
+			c := cfg()
+			lines = append(lines, fmt.Sprintf("reload %s %s %s", c, f, hx.Pick(r, vias)))
+			if f != "none" && f != "template-ok" && (id <= len(reloadFaults) || r.IntN(2) == 0) {
+				// the operator retries the very same file: rejected once, rejected again
+				lines = append(lines, fmt.Sprintf("reload %s %s %s", c, f, hx.Pick(r, vias)))
+			}
+			lines = append(lines, "status", probe(hx.Pick(r, []string{"-", "x"})))
 			if r.IntN(3) == 0 {
 				lines = append(lines, probe(hx.Pick(r, []string{"-", "x"})))
 			}
